@@ -23,7 +23,9 @@ THOROUGH_DEPTH = 40      # thorough tier = this many times the base thorough bud
 TOL_BS = 1e-13
 STREAMERS = ["Madgwick/IMU", "Madgwick/MARG", "Mahony/IMU", "Mahony/MARG", "EKF/IMU/NED", "EKF/IMU/ENU", "EKF/MARG/NED", "EKF/MARG/ENU", "UKF",
              "AQUA/IMU", "AQUA/MARG", "AQUA/IMU/adaptive", "AQUA/MARG/adaptive", "Fourati", "ROLEQ/NED", "ROLEQ/ENU"]
-EXTRA = ["AngularRate/closed", "AngularRate/series", "OLEQ", "FLAE"]
+EXTRA = ["AngularRate/closed", "AngularRate/series", "OLEQ", "FLAE",
+         # batch-only filters and estimators: no streamed twin, but runs must still be repeatable and independent of what ran before
+         "Complementary/IMU", "Complementary/MARG", "FKF", "Tilt", "Tilt/acc-only", "SAAM", "FAMC", "FQA", "QUEST", "Davenport", "TRIAD", "AQUA/static"]
 ROUTES = ["batch-vs-stream:" + n for n in STREAMERS + ["AngularRate/closed", "AngularRate/series"]] + \
          ["repeat:" + n for n in STREAMERS + EXTRA] + ["interleave", "fresh-process", "shared-state"]
 REGIONS = {"bs:default-params": 60, "bs:explicit-params": 60, "interleave:2": 10, "interleave:3-4": 10, "process": 2}
@@ -197,6 +199,13 @@ def run_batch(name, kw, g, a, m, seed=None, order=3):
         return np.asarray(F.OLEQ(a.copy(), m.copy(), **kw).Q, float)
     if name == "FLAE":
         return np.asarray(F.FLAE(a.copy(), m.copy(), **kw).Q, float)
+    batch_only = {"Complementary/IMU": lambda: F.Complementary(g.copy(), a.copy(), **kw).Q, "Complementary/MARG": lambda: F.Complementary(g.copy(), a.copy(), m.copy(), **kw).Q,
+                  "FKF": lambda: F.FKF(g.copy(), a.copy(), m.copy(), **kw).Q, "Tilt": lambda: F.Tilt(a.copy(), m.copy()).Q, "Tilt/acc-only": lambda: F.Tilt(a.copy()).Q,
+                  "SAAM": lambda: F.SAAM(a.copy(), m.copy()).Q, "FAMC": lambda: F.FAMC(a.copy(), m.copy()).Q, "FQA": lambda: F.FQA(a.copy(), m.copy()).Q,
+                  "QUEST": lambda: F.QUEST(a.copy(), m.copy()).Q, "Davenport": lambda: F.Davenport(a.copy(), m.copy()).Q, "TRIAD": lambda: F.TRIAD(a.copy(), m.copy()).A,
+                  "AQUA/static": lambda: F.AQUA(a.copy(), m.copy()).Q}
+    if name in batch_only:
+        return np.asarray(batch_only[name](), float)
     cfg = filt.registry()[name]
     return np.asarray(cfg.batch(g.copy(), a.copy(), m.copy(), **kw), float)
 
@@ -244,6 +253,10 @@ def check_bs(case, ctx):
     np.random.seed(seed)          # the harness' own (re-)seeding must not show up as a shared-state write
     before = snapshot()
     b1 = call(run_batch, name, kw, g, a, m, seed, order)
+    if name in EXTRA:        # something else runs in between (fills and frees memory of the same sizes)
+        call(run_batch, "Complementary/MARG", {}, g[::-1] * 3.0, a[::-1] + 0.5, m[::-1] * 2.0, seed, order)
+        _ = [np.full((len(g), 3), 7.5) for _ in range(3)]
+        del _
     b2 = call(run_batch, name, kw, g, a, m, seed, order)
     r = "repeat:" + name
     eq, why = outcome_equal(b1, b2)
